@@ -21,6 +21,22 @@ var effectOps = map[string]string{
 	"(*" + modPath + "lib/server.server).dhcpOptions":           "DhcpOptions",
 	"(*" + modPath + "lib/server.server).arpVerify":             "ArpVerify", // closure maker: see arpVerifyCall
 	"time.Sleep": "Sleep",
+	// the layer below lib/server/ipdb: the clients table, the clock, the caller's context
+	"(*" + modPath + "lib/server/ipdb/clients.Clients).Lookup":          "ClientsLookup",
+	"(*" + modPath + "lib/server/ipdb/clients.Clients).SetLease":        "ClientsSetLease",
+	"(*" + modPath + "lib/server/ipdb/clients.Clients).Inject":          "ClientsInject",
+	"(*" + modPath + "lib/server/ipdb/clients.Clients).InjectPermanent": "ClientsInjectPermanent",
+	"time.Now":              "Now",
+	"(context.Context).Err": "CtxErr",
+}
+
+// envOfPkg: every layer has its own environment structure (so that adding a layer never changes the
+// environment of another one). Functions of lib/server/ipdb see `DbEnv`, everything else `Env`.
+func envOfPkg(path string) string {
+	if strings.HasSuffix(path, "lib/server/ipdb") {
+		return "DbEnv"
+	}
+	return "Env"
 }
 
 // calls without observable effect on what the properties talk about (logging)
@@ -29,6 +45,14 @@ var ignorable = map[string]bool{
 	modPath + "lib/server/ylog.New":                 true,
 	"(*log.Logger).Printf":                          true,
 	"(*log.Logger).Println":                         true,
+	// locking: the discipline (write lock held for the whole body of every exported *IPDB method) is a
+	// regenerated fact pinned by Expect.lean; the translation is of the body as one atomic step
+	"(*sync.RWMutex).Lock":    true,
+	"(*sync.RWMutex).Unlock":  true,
+	"(*sync.RWMutex).RLock":   true,
+	"(*sync.RWMutex).RUnlock": true,
+	"(*sync.Mutex).Lock":      true,
+	"(*sync.Mutex).Unlock":    true,
 }
 
 func effectOf(f *types.Func) (string, bool) {
@@ -42,22 +66,23 @@ func effectOf(f *types.Func) (string, bool) {
 func isIgnorable(f *types.Func) bool { return f != nil && ignorable[f.FullName()] }
 
 type envOp struct {
+	env  string // "Env" (server handlers) or "DbEnv" (lease database)
 	name string
 	typ  string // Lean type of the field, e.g. "Bytes → Bytes → StateT σ R (Bytes × GoErr)"
 }
 
 // envUse registers an environment operation (first use fixes its type) and returns `E.name`.
-func (x *X) envUse(name string, argTypes []string, res string) string {
+func (x *X) envUse(env, name string, argTypes []string, res string) string {
 	t := strings.Join(append(append([]string{}, argTypes...), "StateT σ R "+res), " → ")
 	for _, o := range x.envOps {
-		if o.name == name {
+		if o.name == name && o.env == env {
 			if o.typ != t {
 				bad("environment operation %s used at two types: %s / %s", name, o.typ, t)
 			}
 			return "E." + name
 		}
 	}
-	x.envOps = append(x.envOps, envOp{name, t})
+	x.envOps = append(x.envOps, envOp{env, name, t})
 	return "E." + name
 }
 
@@ -68,13 +93,33 @@ func (x *X) envDef() string {
 	ops := append([]envOp{}, x.envOps...)
 	sort.Slice(ops, func(i, j int) bool { return ops[i].name < ops[j].name })
 	var sb strings.Builder
-	sb.WriteString("/-- The world outside the translated code: lease database, ARP prober, socket, clock.\nEach field stands for one Go call (receiver dropped, `context.Context` arguments dropped). -/\nstructure Env (σ : Type) where\n")
-	for _, o := range ops {
-		fmt.Fprintf(&sb, "  %s : %s\n", o.name, o.typ)
+	doc := map[string]string{
+		"Env":   "The world outside the translated server handlers: lease database, ARP prober, socket, clock.",
+		"DbEnv": "The world outside the translated lease database (lib/server/ipdb): the clients table, the clock, the caller's context.",
 	}
-	sb.WriteString("\n")
+	for _, env := range []string{"Env", "DbEnv"} {
+		n := 0
+		for _, o := range ops {
+			if o.env == env {
+				n++
+			}
+		}
+		if n == 0 {
+			continue
+		}
+		fmt.Fprintf(&sb, "/-- %s\nEach field stands for one Go call (receiver dropped, `context.Context` arguments dropped). -/\nstructure %s (σ : Type) where\n", doc[env], env)
+		for _, o := range ops {
+			if o.env == env {
+				fmt.Fprintf(&sb, "  %s : %s\n", o.name, o.typ)
+			}
+		}
+		sb.WriteString("\n")
+	}
 	return sb.String()
 }
+
+// envName: the environment structure of the function being translated.
+func (c *fctx) envName() string { return envOfPkg(c.fi.pkg.PkgPath) }
 
 func isContext(t types.Type) bool { return t.String() == "context.Context" }
 
@@ -103,14 +148,18 @@ func (c *fctx) effectCall(op string, f *types.Func, t *ast.CallExpr) (string, *t
 			}
 			continue
 		}
-		args = append(args, c.expr(a))
+		if isNil(a) {
+			args = append(args, c.nilOf(pt, a.Pos()))
+		} else {
+			args = append(args, c.expr(a))
+		}
 		atys = append(atys, c.x.leanType(pt, false))
 	}
 	var rtys []string
 	for i := 0; i < sig.Results().Len(); i++ {
 		rtys = append(rtys, c.x.leanType(sig.Results().At(i).Type(), true))
 	}
-	name := c.x.envUse(op, atys, tupleType(rtys))
+	name := c.x.envUse(c.envName(), op, atys, tupleType(rtys))
 	c.fi.effectful = true
 	return "(← " + strings.TrimSpace(name+" "+strings.Join(args, " ")) + ")", sig.Results()
 }
@@ -129,7 +178,7 @@ func (c *fctx) arpVerifyCall(outer *ast.CallExpr, inner *ast.CallExpr) string {
 		args = append(args, c.expr(a))
 		atys = append(atys, c.x.leanType(c.typeOf(a), false))
 	}
-	name := c.x.envUse("ArpVerifyRun", atys, "Bool")
+	name := c.x.envUse(c.envName(), "ArpVerifyRun", atys, "Bool")
 	c.fi.effectful = true
 	return "(← " + name + " " + strings.Join(args, " ") + ")"
 }
